@@ -652,6 +652,15 @@ class Interp:
                             "that is not created by this call (class / "
                             "module level): every caller sees the write"
                             % unparse(t.value), t)
+            if isinstance(fr, dict) and isinstance(
+                    t.value, ast.Name) and t.value.id in env:
+                # a dict created by this call and bound to a local
+                k = self.ev1(t.slice, env, st, ctx)
+                if isinstance(k, (str, int)):
+                    new = dict(fr)      # copy: forked worlds share values
+                    new[k] = v
+                    env[t.value.id] = new
+                    return
             if not isinstance(fr, AFrame):
                 raise Unsupported("item store on %r" % (fr,))
             if isinstance(t.slice, ast.Slice):
@@ -738,6 +747,26 @@ class Interp:
                 else:
                     yield from self.boolop(op, rest, env2, st2, ctx)
 
+    def valop(self, op, vals, env, st, ctx):
+        first, rest = vals[0], vals[1:]
+        for v, env1, st1 in self.ev(first, env, st, ctx):
+            if isinstance(v, Raise) or not rest:
+                yield v, env1, st1
+                continue
+            for b, env2, st2 in self.truth(v, env1, st1):
+                if isinstance(b, Raise):
+                    yield b, env2, st2
+                elif bool(b) == isinstance(op, ast.Or):
+                    # decided here: the value of the expression is this
+                    # operand (a lane test that came out true / false reads
+                    # as that constant)
+                    out = v
+                    if isinstance(v, (ABool, Cmp, IvCmp, Either)):
+                        out = bool(b)
+                    yield out, env2, st2
+                else:
+                    yield from self.valop(op, rest, env2, st2, ctx)
+
     def truth(self, v, env, st):
         if isinstance(v, Raise):
             yield v, env, st
@@ -812,7 +841,8 @@ class Interp:
             if e.id in ("int", "isinstance", "len", "hasattr", "list",
                         "super", "range", "type", "issubclass", "str",
                         "bool", "getattr", "tuple", "max", "min", "dict",
-                        "next", "any", "all"):
+                        "next", "any", "all", "filter", "enumerate",
+                        "zip", "reversed"):
                 yield ("builtin", e.id), env, st
                 return
             if e.id in ("True", "False", "None"):
@@ -936,8 +966,10 @@ class Interp:
                 yield from self.cond(both, env, st, ctx)
                 return
             yield self.compare(e.ops[0], l, r, st), env, st
-        elif isinstance(e, ast.BoolOp) or (isinstance(e, ast.UnaryOp)
-                                           and isinstance(e.op, ast.Not)):
+        elif isinstance(e, ast.BoolOp):
+            # `a or b` / `a and b` as values: the operand that decides
+            yield from self.valop(e.op, list(e.values), env, st, ctx)
+        elif isinstance(e, ast.UnaryOp) and isinstance(e.op, ast.Not):
             for b, env2, st2 in self.cond(e, env, st, ctx):
                 yield b, env2, st2
         elif isinstance(e, ast.UnaryOp) and isinstance(e.op, ast.USub):
@@ -1462,6 +1494,25 @@ class Interp:
                     yield args[1], env, st
                 else:
                     raise Raise("StopIteration", node)
+            elif n == "filter":
+                if len(args) != 2 or args[0] is not None or not isinstance(
+                        args[1], (list, tuple)):
+                    raise Unsupported("filter(%r, ..)" % (args[0],))
+                yield from self._filter_truthy(list(args[1]), [], env, st)
+            elif n == "enumerate":
+                seq = args[0]
+                if not isinstance(seq, (list, tuple)):
+                    raise Unsupported("enumerate() over %r" % (seq,))
+                start = args[1] if len(args) > 1 else kwargs.get("start", 0)
+                yield [(start + i, v) for i, v in enumerate(seq)], env, st
+            elif n == "zip":
+                if not all(isinstance(a, (list, tuple)) for a in args):
+                    raise Unsupported("zip() over %r" % (args,))
+                yield list(zip(*args)), env, st
+            elif n == "reversed":
+                if not isinstance(args[0], (list, tuple)):
+                    raise Unsupported("reversed() over %r" % (args[0],))
+                yield list(reversed(args[0])), env, st
             elif n in ("any", "all"):
                 seq = args[0]
                 if not isinstance(seq, (list, tuple)):
@@ -1611,6 +1662,17 @@ class Interp:
         for v, st2 in self.call_fn(r[2], r[0], args, kwargs, st, self_=o,
                                    kind="inst"):
             yield (v if isinstance(v, Raise) else o), _sync_iv(env, st2), st2
+
+    def _filter_truthy(self, seq, acc, env, st):
+        if not seq:
+            yield list(acc), env, st
+            return
+        for b, e2, s2 in self.truth(seq[0], env, st):
+            if isinstance(b, Raise):
+                yield b, e2, s2
+            else:
+                yield from self._filter_truthy(
+                    seq[1:], acc + [seq[0]] if b else acc, e2, s2)
 
     def _anyall(self, n, seq, env, st):
         if not seq:
